@@ -1,6 +1,7 @@
 package ksim
 
 import (
+	corev1 "k8s.io/api/core/v1"
 	"encoding/json"
 	"fmt"
 	mrand "math/rand"
@@ -171,9 +172,11 @@ func (s *Sim) onCommit(w *Write) {
 	if s.EvLog != nil && s.EvLog.keep {
 		if w.Key.GK == gkRollout || w.Key.GK == gkBR {
 			s.EvLog.Lines = append(s.EvLog.Lines, "  # "+s.abstractState())
+		} else if w.Key.GK == gkService && w.New != nil {
+			s.EvLog.Lines = append(s.EvLog.Lines, "  # svc selector="+dumpJSON(w.New.(*corev1.Service).Spec.Selector))
 		} else if isWorkloadGK(w.Key) && w.New != nil {
 			e, n, _ := s.exposure(w.New)
-			s.EvLog.Lines = append(s.EvLog.Lines, fmt.Sprintf("  # %s exposure=%d/%d gen=%d status=%s", w.Key, e, n, w.New.GetGeneration(), statusJSON(w.New)))
+			s.EvLog.Lines = append(s.EvLog.Lines, fmt.Sprintf("  # %s exposure=%d/%d gen=%d strategy=%s ctl=%v status=%s", w.Key, e, n, w.New.GetGeneration(), w.New.GetAnnotations()["rollouts.kruise.io/deployment-strategy"], controlledByUID(w.New), statusJSON(w.New)))
 		}
 		for _, v := range s.Violations[nv:] {
 			s.EvLog.Lines = append(s.EvLog.Lines, "  !! "+v.Property+" "+v.Sig+": "+firstLine(v.Detail))
